@@ -74,8 +74,10 @@ class LimitedTaskQueue:
                 released.append(itask)
                 n_active += 1
                 active.update({itask.tdef.name: 1})
-        for itask in held:
-            self.deque.appendleft(itask)
+        # Held tasks keep their place at the front of the queue (in the order
+        # they were queued) so that they are not overtaken once released.
+        for itask in reversed(held):
+            self.deque.append(itask)
         return released
 
     def remove(self, itask: 'TaskProxy') -> bool:
